@@ -974,7 +974,7 @@ def retrieve_loop_cases(ctx, count):
     lines, impls, cases = [], [], []
     corpus = [(2, [(0, 0, False), (1, 1, True), (2, 0, True)])]
     with grid.Runtime(seed=0):
-        # which bad-share handling does this tree have?  (as it is: the server goes; with fixes/C10-bad-share-drops-server.diff: the share goes)
+        # which bad-share handling does this tree have?  (since /repo 280b4a6: the share goes; before: its whole server)
         variant = "f" if run_retrieve_loop_impl(*corpus[0]) == "ok:1,2" else "t"
         ctx.count("retrieve-loop:variant=" + variant)
         for c in range(count + len(corpus)):
@@ -1011,6 +1011,116 @@ def retrieve_loop_cases(ctx, count):
         ctx.count("retrieve-loop:variants-differ", differ)
 
 
+# ----------------------------------------------------------------------------- one version, two verinfos in a reused servermap
+
+def two_verinfos_corpus(ctx):
+    """Fixed corpus (was a genuine defect, repaired in /repo 80fa722).  A publisher records its own
+    shares in its ServerMap with the write proxy's offsets tuple; a later survey of the same shares uses
+    the read proxy's.  When the two tuples differ (dict insertion order), a server that cannot be
+    re-surveyed keeps the writer's entry and the one version sits in the reused map under two verinfos;
+    best_recoverable_version() may pick the one whose only holder is gone.
+      history A: mv = get_best_mutable_version(); mv.overwrite("two"); one server goes down; mv.modify(...)
+      history B: node.modify(...) whose publish is partly placed (one server's share was swapped for a
+                 stale one after the survey -> UncoordinatedWriteError), another server goes down during
+                 the backoff, the retry loop re-surveys into the same map.
+    1-of-3 on 3 servers: the newest version stays readable from a live server, so the read inside
+    modify() -- and modify() with it -- has to succeed (liveness clause)."""
+    import grid
+    from allmydata.mutable.publish import MutableData
+    from allmydata.mutable.servermap import ServerMap
+    from allmydata.interfaces import SDMF_VERSION, MDMF_VERSION
+    from allmydata.mutable.common import MODE_CHECK
+    WRITE = "slot_testv_and_readv_and_writev"
+    seen = []
+    ot_lines, ot_impls, ot_cases = [], [], []
+    orng = ctx.subrng("offsets-tuple")
+    orig_best = ServerMap.best_recoverable_version
+
+    def best(self):
+        vs = list(self.make_versionmap().keys())
+        if any(a != b and a[:8] == b[:8] for a in vs for b in vs):
+            seen.append(True)
+        return orig_best(self)
+    ServerMap.best_recoverable_version = best
+    try:
+        for fmtname, fmt in (("SDMF", SDMF_VERSION), ("MDMF", MDMF_VERSION)):
+            for hist, stale, down in [("A", None, d) for d in range(3)] + [("B", 2, 1), ("B", 0, 2), ("B", 1, 0)]:
+                del seen[:]
+                with grid.Runtime(seed=1, policy="fifo") as rt:
+                    g = grid.Grid(grid.fresh_dir("c10v"), rt, num_servers=3, k=1, happy=1, n=3)
+                    try:
+                        c = g.clients[0]
+                        node = rt.wait(c.create_mutable_file(MutableData(b"one"), version=fmt))
+                        modifier = lambda o, sm, first: o if o.endswith(b"!") else o + b"!"      # noqa: E731
+                        res = "ok"
+                        try:
+                            if hist == "A":
+                                mv = rt.wait(node.get_best_mutable_version())
+                                rt.wait(mv.overwrite(MutableData(b"two")))
+                                # the offsets tuples inside the verinfos: the publisher's own records and a fresh survey
+                                fresh_map = rt.wait(fresh_node(c, node.get_uri()).get_servermap(MODE_CHECK))
+                                for who, smap in (("publisher", mv._servermap), ("survey", fresh_map)):
+                                    for v in smap.make_versionmap().keys():
+                                        tup = list(v[8])
+                                        rank = {nm: r for r, nm in enumerate(sorted(nm for nm, _o in tup))}
+                                        shuffled = list(tup)
+                                        orng.shuffle(shuffled)
+                                        ot_lines.append("ot c " + " ".join("%d:%d" % (rank[nm], o) for nm, o in shuffled))
+                                        ot_impls.append(" ".join("%d:%d" % (rank[nm], o) for nm, o in tup))
+                                        ot_cases.append({"fmt": fmtname, "who": who, "offsets_tuple": [[nm, o] for nm, o in tup]})
+                                pub = {v[:8]: v[8] for v in mv._servermap.make_versionmap().keys()}
+                                for v in fresh_map.make_versionmap().keys():
+                                    if v[:8] in pub and pub[v[:8]] != v[8]:
+                                        ctx.disagree("one share, two identities: the publisher's record and a fresh survey of the same "
+                                                     "version carry different offsets tuples", {"fmt": fmtname},
+                                                     repr(pub[v[:8]]), repr(v[8]))
+                                g.wrappers[down].broken = True
+                                rt.wait(mv.modify(modifier))
+                            else:
+                                files = {i: p for (i, _sh, p) in g.share_files(node.get_storage_index())}
+                                old = open(files[stale], "rb").read()
+                                rt.wait(node.overwrite(MutableData(b"two")))
+                                d = node.modify(modifier)
+                                while not any(lb and lb[1] == WRITE for (lb, _d) in rt.pending):
+                                    if not rt.step():
+                                        break
+                                with open(files[stale], "wb") as fh:
+                                    fh.write(old)
+                                while rt.step():            # first attempt runs out; the backoff timer is pending
+                                    pass
+                                g.wrappers[down].broken = True
+                                rt.wait(d)
+                        except grid.Stuck:
+                            res = "stuck"
+                        except Exception as e:
+                            res = type(e).__name__
+                        st, val = try_read(rt, fresh_node(c, node.get_readonly_uri()))
+                        case = {"family": "two-verinfos", "fmt": fmtname, "history": hist, "stale_server": stale, "down_server": down,
+                                "k": 1, "n": 3, "servers": 3, "modify": res, "fresh_read": st,
+                                "one_version_under_two_verinfos": bool(seen)}
+                        if res == "stuck" or st == "stuck":
+                            ctx.violation("operation never completed", case, "read-stuck:two-verinfos")
+                        elif res in ("NotEnoughSharesError", "UnrecoverableFileError"):
+                            ctx.violation("the newest version was readable from a live server but the read inside modify() through the "
+                                          "node's reused servermap failed", case,
+                                          "newest-not-returned:one-version-two-verinfos" if seen else "newest-not-returned:reused-servermap")
+                        elif res != "ok":
+                            ctx.violation("modify() failed: %s" % res, case, "reused-servermap:unexpected-error")
+                        elif st == "ok" and val not in (b"one", b"two", b"two!"):
+                            ctx.violation("read returned bytes that no version ever published", dict(case, got=val.hex()[:80]),
+                                          "unpublished-bytes:two-verinfos")
+                        elif st != "ok":
+                            ctx.violation("k intact shares of the newest version were reachable but the read failed", dict(case, got=val),
+                                          "newest-not-returned:two-verinfos-fresh-read")
+                        ctx.case(repr(sorted(case.items())))
+                        ctx.count("two-verinfos:%s:%s:%s" % (fmtname, hist, res))
+                    finally:
+                        g.close()
+    finally:
+        ServerMap.best_recoverable_version = orig_best
+    ctx.compare("offsets tuple inside verinfo (canonical order, whichever proxy made it)", ot_cases, ot_impls, ctx.model(ot_lines))
+
+
 def run(ctx):
     import common
     common.setup_impl_path()
@@ -1025,6 +1135,7 @@ def run(ctx):
         prefix_alteration_scenario(ctx, rc["params"])
         return
     offset_table_corpus(ctx)
+    two_verinfos_corpus(ctx)
     consistent_forgery_family(ctx, ctx.budget(12, 240))
     retrieve_tree_cases(ctx, ctx.budget(300, 20000))
     versionmap_cases(ctx, ctx.budget(300, 20000))
